@@ -5,18 +5,20 @@ bijection onto the flat buffer; every access site accepts iff in range for indic
 rejected accesses change nothing; the array machine incl. pointers refines a shadow array keyed by
 index tuples for every operation sequence, with and without `checked`; one law refuted on the faithful
 model = known finding (array_get/array_set); the defects this check found at the array sites are fixed in
-/repo (ff8053c, 2bd3a28, f8c96b6, 4d44dbb, 3ecd7bc) and the model mirrors the repaired code).
+/repo (ff8053c, 2bd3a28, f8c96b6, 4d44dbb, 3ecd7bc, 3f94fc1) and the model mirrors the repaired code).
 Tie: (1) the extracted model (bin/c05_model) against the repository's own Variable::calculate_flat_index
 linked into harness/cpp/c05_flatidx.cpp, exhaustively on all shapes of 1-3 dimensions with extents 1..5 x
 all index tuples in [-2, extent+2] plus indices around +-2^31 / +-2^32 / +-2^63 (through Variable::index_to_int); (2) generated Cb programs through
 `main` for every access path (local / global / parameter array, struct member array, &a[i], p+-k, p++/p--,
 p[k], *p, *(p+k), `checked`/`try`) x read/write, compared with the model's run of the same operation list
-and with a Python shadow array keyed by index tuples (the property's own reading); (3) Variable::calculate_flat_index itself is
+and with a Python shadow array keyed by index tuples (the property's own reading) - int elements everywhere, float / double
+elements for element reads and writes on 2-D / 3-D named arrays (every tuple in [-2, extent+2]^rank, values k + 0.5); (3) Variable::calculate_flat_index itself is
 re-translated from clang's AST of its current C++ text into coq/C05/Gen_FlatIndex.v on every run (translators/cxx_pure.py, for loop
 over two std::vectors in the C++17 semantics of coq/Cxx/Cxx.v), and so are the copies of that loop that bypass it: the five
 `array_dimensions` branches of ArrayManager::get/setMultidimensional*ArrayElement*, the struct-member read path
 StructOperations::get_struct_member_multidim_array_element and the float/double read path of the typed evaluator (each cut out of
-its function; the last one has no per-dimension test: proved refuted, known finding); coq/C05/Properties_C05_cxx.v proves -
+its function; the last one tests every index since fix 3f94fc1 and is proved equal to the model for element reads - what it lacks is a
+test of the NUMBER of subscripts: proved refuted, known finding); coq/C05/Properties_C05_cxx.v proves -
 by induction over the loop, for all extents >= 1 whose product fits an int (size_t for the read branch) and all int indices of any
 number - that each generated function returns / throws exactly what the model calc_flat says and never reaches undefined behaviour;
 when that breaks, harness/flatgen_tie.py searches a
@@ -40,7 +42,7 @@ META = {
                  "regenerated from clang's AST on every run and proved equal to the model (loop induction, UB-freedom) + extracted-model "
                  "differential run against Variable::index_to_int/calculate_flat_index (leaf, exhaustive) and against main (generated programs)",
     "text": "Machine-checked theorems about a site-by-site Gallina model of the interpreter's array index checks (mirroring /repo at the "
-            "fixes ff8053c, 2bd3a28, f8c96b6, 4d44dbb, 3ecd7bc): calculate_flat_index accepts exactly the tuples with every index inside its dimension and is a "
+            "fixes ff8053c, 2bd3a28, f8c96b6, 4d44dbb, 3ecd7bc, 3f94fc1): calculate_flat_index accepts exactly the tuples with every index inside its dimension and is a "
             "bijection between those tuples and the flat buffer (row-major); every access site (local/global/parameter array, struct "
             "member array, read and write) accepts iff in range for every integer index (an index that does not fit an int is rejected "
             "by index_to_int); a rejected access leaves the state unchanged; an accepted write changes the cell of exactly one tuple; "
@@ -58,14 +60,18 @@ META = {
             "The same for the copies of the loop that bypass calculate_flat_index: ArrayManager's five array_dimensions branches "
             "(getMultidimensionalArrayElementTyped in size_t, setMultidimensionalArrayElement int64/double, "
             "get/setMultidimensionalStringArrayElement in int) and StructOperations::get_struct_member_multidim_array_element (int64 "
-            "subscripts, size_t, dimension named in the message); the float/double/quad read path of the typed evaluator is generated too "
-            "and proved NOT to test the indices per dimension (known finding, replayed on the binary).",
+            "subscripts, size_t, dimension named in the message) and the float/double/quad read path of the typed evaluator (int64 subscripts, "
+            "int through long; since fix 3f94fc1 it tests every index: equal to the model and free of undefined behaviour for every read with at "
+            "least as many subscripts as dimensions; for ANY number of subscripts it is the model on the leading dimensions, and the missing test of "
+            "that number is proved refuted with a witness = known finding, replayed on the binary). Float / double arrays are part of the program-level "
+            "streams (reads in and out of range in every dimension of 2-D / 3-D arrays, exit class and exactly representable values).",
     "note": "Trusted: Coq kernel (vm_compute only for witnesses and examples), no axioms (Print Assumptions: closed; coqchk in the thorough "
             "tier); extraction via ExtrOcamlBasic+ExtrOcamlString, Z kept inductive; the model is hand-written and tied by differential "
             "testing, not by a proof about the C++ - except calculate_flat_index and the seven copies of its loop, whose terms are generated (trusted there: clang 14's AST dump, "
             "translators/cxx_pure.py, the C++17 reading coq/Cxx/Cxx.v). Hypotheses left in the theorems: declared extents fit an int (dims_fit), size < 2^31, "
             "the buffer does not wrap the address space. Not modelled: the flattened-struct synchronisation, pointers into struct member arrays and into parameter arrays (aliasing, C07), element types other than "
-            "int, string/char indexing, dynamic arrays, int64 overflow of element_index + k.",
+            "int (float / double: element reads and writes of named N-D arrays are run through main against the same model; not their struct members, pointers, `checked`), "
+            "string/char indexing, dynamic arrays, int64 overflow of element_index + k.",
 }
 
 T31, T32, T61 = 2 ** 31, 2 ** 32, 2 ** 61
@@ -241,8 +247,23 @@ def well_formed(c):
 
 
 # ================================================================== Cb program text
-def ty(dims):
-    return "int" + "".join("[%d]" % d for d in dims)
+def ty(dims, elem="int"):
+    return elem + "".join("[%d]" % d for d in dims)
+
+
+FLOAT_ELEMS = ("float", "double")
+
+
+def is_float(c):
+    return c.get("elem", "int") in FLOAT_ELEMS
+
+
+def val_text(c, v):
+    """How the cell value v (an int in the model and in the shadow array) is written and printed in the program of case c: as it is for
+    int elements; v + 0.5 for float / double elements (exactly representable in both, printed with one digit), an untouched cell 0.0."""
+    if not is_float(c):
+        return str(v)
+    return "%d.5" % v if v > 0 else "0.0"
 
 
 def lit(dims, vals):
@@ -271,7 +292,9 @@ def gen_program(c):
     n, r = size(dims), len(dims)
     member = loc in ("mlocal", "mglobal")
     A = "s.m" if member else "a"
-    T = ty(dims)
+    elem = c.get("elem", "int")
+    flt = elem in FLOAT_ELEMS           # float / double elements: plain mode, named arrays, element reads and writes only
+    T = ty(dims, elem)
     args = ", ".join("long i%d" % k for k in range(r))
     isub = "".join("[i%d]" % k for k in range(r))
     top, pre, body = [], [], []
@@ -279,11 +302,11 @@ def gen_program(c):
         top.append("struct S { int k; %s m; };" % T)
     # ---- declaration + initial contents
     init_writes = []
-    lit_ok = c.get("use_literal") and not member
+    lit_ok = c.get("use_literal") and not member and not flt
     if not lit_ok:
         for k, v in enumerate(c["init"]):
             if v != 0:
-                init_writes.append("  %s%s = %d;" % (A, sub(unflat(dims, k)), v))
+                init_writes.append("  %s%s = %s;" % (A, sub(unflat(dims, k)), val_text(c, v)))
     decl = "%s a%s;" % (T, (" = " + lit(dims, c["init"])) if lit_ok else "")
     if loc == "global":
         top.append(decl)
@@ -327,16 +350,16 @@ def gen_program(c):
             elif ctx == 0:
                 body.append("  println(%s);" % e)
             elif ctx == 1:
-                body.append("  long t%d = %s; println(t%d);" % (j, e, j))
+                body.append("  %s t%d = %s; println(t%d);" % (elem if flt else "long", j, e, j))
             else:
-                body.append("  println(%s + 0);" % e)
+                body.append("  println(%s + %s);" % (e, "0.0" if flt else "0"))
         elif t == "W":
             if mode == "checked" and r == 1 and not member and wcall is None:
                 body.append("  Result<int, RuntimeError> q%d = checked (a[%d] = %d); show(q%d);" % (j, o[1][0], o[2], j))
             elif mode == "checked" and r == 1 and not member:
                 body.append("  show(%s);" % wcall(o[1][0], o[2]))
             else:
-                body.append("  %s%s = %d; println(\"u\");" % (A, sub(o[1]), o[2]))
+                body.append("  %s%s = %s; println(\"u\");" % (A, sub(o[1]), val_text(c, o[2])))
         elif t == "A":
             body.append("  %sp = &%s%s; println(\"u\");" % ("" if have_p else "int* ", A, sub(o[1])))
             have_p = True
@@ -387,15 +410,15 @@ def expected_stdout(c, results, cells):
         elif c["mode"] == "checked" and o[0] == "W" and len(c["dims"]) == 1 and kind_of(c["loc"]) == "N":
             out.append("Ok %d" % o[2])
         elif r.startswith("V"):
-            out.append(r[2:])
+            out.append(val_text(c, int(r[2:])))
         else:
             out.append("u")
     if not ended:
         out.append("dump")
-        out += [str(v) for v in cells]
+        out += [val_text(c, v) for v in cells]
         if c["loc"] == "param" and c["mode"] == "plain" and len(c["dims"]) == 1:
             out.append("dump")
-            out += [str(v) for v in cells]
+            out += [val_text(c, v) for v in cells]
     return out, ended
 
 
@@ -547,13 +570,67 @@ def rand_case(rng, tier):
     return c
 
 
-def single_case(loc, dims, t, rw, init=None, ctx=0, value=7):
+def single_case(loc, dims, t, rw, init=None, ctx=0, value=7, elem="int"):
     n = size(dims)
     init = init if init is not None else [k + 1 for k in range(n)]
     ops = [("R", list(t))] if rw == "R" else [("W", list(t), value), ("R", list(t))]
     if rw == "W" and loc == "param" and len(dims) >= 2:
         ops = ops[:1]                                   # read-back happens in the caller's dump
-    return {"mode": "plain", "loc": loc, "dims": list(dims), "init": init, "ops": ops, "use_literal": True, "ctx": ctx}
+    c = {"mode": "plain", "loc": loc, "dims": list(dims), "init": init, "ops": ops, "use_literal": True, "ctx": ctx}
+    if elem != "int":
+        c["elem"] = elem
+    return c
+
+
+# ================================================================== float / double element arrays
+def float_cases(seed, tier):
+    """Element reads and writes on 2-D and 3-D arrays of float / double elements (local, global, parameter): every tuple in
+    [-2, extent+2]^rank as a single read (in range: the value written to exactly that cell, exactly representable, e.g. 4.5;
+    outside in any dimension: the run ends with a bounds error - the read path of these arrays had no per-dimension test before
+    fix 3f94fc1), writes with read-back, indices outside int, and short random read / write sequences."""
+    cases = []
+    locs = ("local", "global", "param")
+    if tier == "thorough":
+        shp = [d for d in shapes(3, 4) if len(d) == 2] + [d for d in shapes(3, 3) if len(d) == 3]
+    else:
+        shp = [[2, 3], [3, 2], [1, 4], [2, 2], [2, 2, 2], [2, 3, 2], [3, 1, 2]]
+    for si, dims in enumerate(shp):
+        n = size(dims)
+        init = [10 + 7 * k for k in range(n)]
+        for k, t in enumerate(tuples_around(dims)):
+            for ei, elem in enumerate(FLOAT_ELEMS):
+                if tier == "quick" and len(dims) == 3 and (k + ei + seed) % 2:
+                    continue
+                loc = locs[(k + ei + si) % 3]
+                cases.append(single_case(loc, dims, t, "R", init=init, ctx=(k + ei) % 3, elem=elem))
+                if (k + si + seed) % 5 == 0:
+                    cases.append(single_case(locs[(k + ei + si + 1) % 3], dims, t, "W", init=init, ctx=k % 3, value=900 + k % 90, elem=elem))
+    for k in range(240 if tier == "quick" else 4000):
+        rng = rng_for(seed, "c05-float", k)
+        dims = [rng.randint(1, 4) for _ in range(rng.choice([2, 2, 3]))]
+        n = size(dims)
+        c = {"mode": "plain", "loc": rng.choice(locs), "dims": dims, "init": [rng.randint(1, 999) for _ in range(n)],
+             "use_literal": False, "ctx": rng.randrange(3), "elem": rng.choice(FLOAT_ELEMS)}
+        if k % 2:
+            # one access with an index from the whole pool of rand_tuple (also outside int: the subscripts are compared as int64_t)
+            t = rand_tuple(rng, dims, 0.85)
+            c["ops"] = [("R", t)] if rng.random() < 0.6 else [("W", t, rng.randint(1, 999)), ("R", t)]
+            if c["ops"][0][0] == "W" and c["loc"] == "param":
+                c["ops"] = c["ops"][:1]
+        else:
+            ops = []
+            for j in range(rng.randint(2, 8)):
+                t = rand_tuple(rng, dims, 0.0)
+                ops.append(("R", t) if rng.random() < 0.5 else ("W", t, rng.randint(1, 999)))
+            if rng.random() < 0.5:
+                ops.append(("R", rand_tuple(rng, dims, 1.0)))
+            if c["loc"] == "param":
+                ops = [o for o in ops if o[0] == "R"] + [o for o in ops if o[0] != "R"]
+                sres, _ = spec_run(dict(c, ops=ops))
+                ops = ops[:len(sres)]
+            c["ops"] = ops
+        cases.append(c)
+    return [c for c in cases if not trips_known(c)]
 
 
 # ================================================================== exhaustive program-level read matrices
@@ -717,9 +794,9 @@ def run(rep):
         def program_replay(copy, dims, idxs):
             """A deviation of one of ArrayManager's branches as an element access through main: the first (location, access) on
             which the binary violates the property's own reading (shadow array)."""
-            for rw in {"get_typed": ("R",), "set_int": ("W", "R"), "member_read": ("R",)}.get(copy, ()):
-                for loc in ("mglobal", "global", "mlocal", "local", "param"):
-                    c = single_case(loc, dims, idxs, rw)
+            for rw in {"get_typed": ("R",), "set_int": ("W", "R"), "member_read": ("R",), "float_read": ("R",)}.get(copy, ()):
+                for loc in ("mglobal", "global", "mlocal", "local", "param") if copy != "float_read" else ("global", "local", "param"):
+                    c = single_case(loc, dims, idxs, rw, elem="double" if copy == "float_read" else "int")
                     if trips_known(c):
                         continue
                     rn = run_case(impl0, c)
@@ -738,6 +815,7 @@ def run(rep):
                             c = single_case(loc, dims, t, rw)
                             if not trips_known(c):
                                 cands.append(c)
+                    cands.append(single_case("global", dims, t, "R", elem="double"))
             runs = common.pmap(lambda c: run_case(impl0, c), cands)
             for c, rn in zip(cands, runs):
                 if not agree(spec_view(observed(c, rn)), spec_prediction(c)):
@@ -916,7 +994,7 @@ def run(rep):
             rep.violation(tag, dict(c, kind="prog", program=gen_program(c), model=[mr, mc], impl=rn, spec=[sr, sc],
                                     broken="correspondence Model.run_%s = main on the generated program" % c["mode"]),
                           "%s %s array %s, ops %s: impl stdout %s rc=%d, model predicts %s; property (shadow array) %s"
-                          % (c["mode"], c["loc"], ty(c["dims"]), [op_text(o) for o in c["ops"]], rn["stdout"][:8], rn["rc"],
+                          % (c["mode"], c["loc"], ty(c["dims"], c.get("elem", "int")), [op_text(o) for o in c["ops"]], rn["stdout"][:8], rn["rc"],
                              predicted(c, mr, mc)[0][:8], "is violated" if concrete else "still holds on this input"),
                           no_failing_input=not concrete)
 
@@ -955,6 +1033,13 @@ def run(rep):
     report(bad4, "int-boundary")
     rep.coverage["int_boundary_programs"] = len(bcases)
 
+    # ---------------------------------------------------------------- (7) float / double element arrays through main
+    # (part of the main stream since fix 3f94fc1: the read path of these arrays tests every index against its dimension)
+    fcases = float_cases(seed, tier)
+    bad5 = check_stream(fcases, "float")
+    report(bad5, "float")
+    rep.coverage["float_array_programs"] = len(fcases)
+
     rep.coverage.update({
         "evaluations": evaluations, "distinct_nontrivial": len(nontrivial),
         "rule": "leaf: every (shape, index tuple) line fed to /repo's calculate_flat_index and to the extracted model; program level: "
@@ -966,12 +1051,13 @@ def run(rep):
                             "[-n-2, n+2] for p+k, p-k, p[k], p[k]=v, *(p+k), p++, p--, &a[i] on 1-D arrays of 1..5 cells and small N-D shapes%s" % (
                                 n_exh, len(jobs), "; every out-of-range tuple as a single read and write through rotating locations" if tier == "thorough" else ""),
         "input_distribution": hist, "samples": samples,
-        "disagreements": len(leaf_bad) + mat_bad + len(bad1) + len(bad2) + len(bad3) + len(bad4),
+        "disagreements": len(leaf_bad) + mat_bad + len(bad1) + len(bad2) + len(bad3) + len(bad4) + len(bad5),
     })
     rep.assumptions += [
         "the Gallina model is hand-written from the named C++ sites and tied to them by differential runs, not by proof (except "
         "Variable::calculate_flat_index: generated from clang's AST and proved equal to the model under extents >= 1, product and rank <= INT_MAX)",
-        "element type int only; array extents 1..5 (leaf also up to 9); values within int range",
+        "element type int (every stream) and float / double (2-D and 3-D named arrays: single reads over every tuple in [-2, extent+2]^rank, "
+        "writes with read-back, short sequences; values k + 0.5, exactly representable); array extents 1..5 (leaf also up to 9); values within int range",
         "program-level runs observe stdout, exit status and the class of the first stderr error line only",
         "pointers are exercised on local and global named arrays only (pointer/parameter and pointer/struct-member aliasing belongs to C07)",
     ]
